@@ -435,6 +435,15 @@ pub fn work(spec: &Value, w: &mut WorkerCtx)
 					format!("fn main()\n{{\n\tvar s: []char8 = {lit}\n\t;\n}}\n")
 				};
 				expect_rejected(&text, *code, &format!("quoted literal {}", lit.escape_default()), json!({"kind": "rejected-quoted", "lo": i, "hi": i + 1}), w);
+				// the same malformed literal behind a well-formed literal of either kind on the same
+				// line (what the lexer learned from the first literal must not excuse the second)
+				for (first, first_type) in [("'>'", "char8"), ("\"ok\"", "[]char8")]
+				{
+					let second_type = if lit.starts_with('\'') { "char8" } else { "[]char8" };
+					let text = format!("fn take(a: {first_type}, b: {second_type})\n{{\n}}\nfn main()\n{{\n\ttake({first}, {lit}\n\t);\n}}\n");
+					w.result.states += 1;
+					expect_rejected(&text, *code, &format!("quoted literal {} behind {first}", lit.escape_default()), json!({"kind": "rejected-quoted", "lo": i, "hi": i + 1}), w);
+				}
 			}
 		}
 		other => panic!("unknown kind {other}"),
